@@ -8,7 +8,7 @@ from pygen import write_pkg
 from runner import Opts, run_many
 
 PKG = "todopk"
-HEAD = "from __future__ import annotations\n\n\ndef _helper():\n    ...\n\n\nclass BaseA:\n    pass\n\n\nclass BaseB:\n    pass\n\n"
+HEAD = "from __future__ import annotations\nfrom typing import Generic, TypeVar\n\n\ndef _helper():\n    ...\n\n\nclass BaseA:\n    pass\n\n\nclass BaseB:\n    pass\n\n"
 
 
 def marker_kinds(todos: list[str]) -> list[str]:
@@ -100,6 +100,10 @@ def attr_src(name, f, ind="    ") -> str:
 
 
 def class_src(name, f) -> str:
+    if "@tpbound" in f:      # a generic class whose type parameter is bounded by a tuple / set type
+        bound = "tuple[int, str]" if "tuple" in f else "set[int]"
+        return (f"TV_{name} = TypeVar(\"TV_{name}\", covariant=True, bound={bound})\n\n\nclass {name}(Generic[TV_{name}]):\n    ok: int\n\n"
+                f"    def __init__(self, a: int):\n        ...\n\n    def m(self, z: int) -> int:\n        ...\n")
     bases = "(BaseA, BaseB)" if "multi" in f else ""
     ctor = f - {"multi"}
     return (f"class {name}{bases}:\n    ok: int\n\n    def __init__({params_src(ctor, 'self')}):\n        ...\n\n"
@@ -137,6 +141,8 @@ def shown_of(d) -> list[str]:
             out.add("unknownvalue")
     for r in d.results:
         types_in(r["type"], acc)
+    for tp in d.typeparams:
+        types_in(tp["bound"], acc)
     if d.kind == "attr":
         if d.type is None:
             out.add("amiss")
